@@ -167,7 +167,9 @@ theorem colls_balanced (cfg : CheckCfg) (n : Node) (st : CState) : (visit cfg n 
 
 `TDefects.asIs` are the rule flags of /repo's current code, `TDefects.asWas` those of the pinned snapshot.
 Repaired in /repo since the snapshot: literal retyping to any parameter type (6162013), `AsBool` on the nil
-type (b6f8e35), closure with a nil-typed body (106fb38) — their witnesses are statements about `asWas`.
+type (b6f8e35), closure with a nil-typed body (106fb38), `in` with an unusable key (e2e7046), slicing of a
+map (265c5fa), computed map-literal key of a non-string type (a03872c), ConstantNode (911e74d) — their
+witnesses are statements about `asWas` (and about `asIs` for the repaired behaviour).
 Still present (pinned by /repo's own tests, recorded in known_findings.json): the loose index rule and the
 static slice types of `filter` / `map` — their witnesses are statements about `asIs`. -/
 
@@ -248,18 +250,18 @@ def exprInMap : Node := .binary {} "in" (.float {} 0) (ident "MSI")
 /-- `{(1): 2}` -/
 def exprMapKey : Node := .map {} [.pair {} (.int {} 1) (.int {} 2)]
 
-/-- `c03:static-program-type-error:slice-of-map`, `…:in-map-key`, `…:map-literal-key`: three statically
-typed expressions the checker accepts and the VM can only fail on (`cannot slice`, `MapIndex: value of
-type float64 is not assignable to type string`, `interface {} is int, not string`); the documented
-rules reject them. -/
+/-- `c03:ill-typed-accepted:slice-of-map` (fixed by 265c5fa), `…:in-map-key` (e2e7046), `…:map-literal-key`
+(a03872c): three statically typed expressions the checker accepted at the snapshot and the VM can only
+fail on (`cannot slice`, `MapIndex: value of type float64 is not assignable to type string`,
+`interface {} is int, not string`); the current checker rejects them, as the documented rules do. -/
 theorem accepted_type_errors_witness :
-    (check (cfgWith .asIs) exprSliceMap).okType = some (some (.map .string tInt)) ∧
-    (check (cfgWith .asIs) exprInMap).okType = some boolTy ∧
-    (check (cfgWith .asIs) exprMapKey).okType = some mapTy ∧
-    Static (cfgWith .asIs) exprSliceMap ∧ Static (cfgWith .asIs) exprInMap ∧
-    (check (cfgWith .repaired) exprSliceMap).errClass = some .notSliceable ∧
-    (check (cfgWith .repaired) exprInMap).errClass = some .mismatchBinary ∧
-    (check (cfgWith .repaired) exprMapKey).errClass = some .badMapKey := by
+    (check (cfgWith .asWas) exprSliceMap).okType = some (some (.map .string tInt)) ∧
+    (check (cfgWith .asWas) exprInMap).okType = some boolTy ∧
+    (check (cfgWith .asWas) exprMapKey).okType = some mapTy ∧
+    Static (cfgWith .asWas) exprSliceMap ∧ Static (cfgWith .asWas) exprInMap ∧
+    (check (cfgWith .asIs) exprSliceMap).errClass = some .notSliceable ∧
+    (check (cfgWith .asIs) exprInMap).errClass = some .mismatchBinary ∧
+    (check (cfgWith .asIs) exprMapKey).errClass = some .badMapKey := by
   decide +kernel
 
 /-- the full rejection statement for the code's own flags … -/
